@@ -113,6 +113,9 @@ class STerm(SymVal):
         if name == 'negative':
             def negative(it):
                 if self.kind == 'op' and self.a is Operator.Negation: return self.b[0]
+                if self.kind in ('atom', 'body', 'inst') and NEGATIVE_OF_OPAQUE == 'outside':
+                    # an opaque operand stands for ANY sentence, a negation included: negative() strips a negation it cannot see here
+                    raise Outside('negative() of an opaque sentence (it may itself be a negation)')
                 return self.neg()
             return Contract(negative, 'Sentence.negative')
         if name == 'asserted': return Contract(lambda it: STerm.Op(Operator.Assertion, self), 'Sentence.asserted')
@@ -170,6 +173,8 @@ class STerm(SymVal):
             return Atomic            # an opaque operand is used as a sentence letter
         raise Outside('type() of an opaque sentence')
     def sym_truth(self, it): return True
+
+NEGATIVE_OF_OPAQUE = 'neg'        # rule-schema interpretation (rulesem.schema) switches to 'outside': there an operand stands for any sentence
 
 def Atom(n): return STerm('atom', n)
 def Body(n, var): return STerm('body', n, var)
